@@ -29,6 +29,8 @@ pub trait Alg: Clone {
     fn detach(self) -> Self;
     /// `.tracked()` on an intermediate (keeps its gradient; no effect on the mathematics)
     fn keep(self) -> Self;
+    /// `.untracked()` followed by `start_tracking()`: tracked again, but without the keep flag
+    fn retrack(self) -> Self;
 }
 
 impl Alg for Array {
@@ -94,6 +96,11 @@ impl Alg for Array {
     }
     fn keep(self) -> Self {
         self.tracked()
+    }
+    fn retrack(self) -> Self {
+        let x = self.untracked();
+        x.start_tracking();
+        x
     }
 }
 
@@ -173,6 +180,9 @@ impl Alg for T {
         self
     }
     fn keep(self) -> Self {
+        self
+    }
+    fn retrack(self) -> Self {
         self
     }
 }
